@@ -43,6 +43,14 @@ class World:
             self.fs[self.p('d1/sub/f.conf')] = ('file', 11)
         self.fs[self.p('abs.conf')] = ('file', 21)
         self.fs[self.p('d2/x..y.conf')] = ('file', 22)       # a name that merely contains two dots
+        # a mirror of the fixture's own absolute path below a search directory: an absolute name that is missing must not be found there
+        mirror = 'd2' + self.root
+        acc = 'd2'
+        for comp in [c for c in self.root.split('/') if c]:
+            acc += '/' + comp
+            self.fs[self.p(acc)] = ('dir',)
+        self.fs[self.p(mirror + '/nope.conf')] = ('file', 25)
+        self.fs[self.p(mirror + '/d1')] = ('file', 26)
         self.fs[self.p('d2/c:x.conf')] = ('file', 23)        # a name with a colon after its first letter, one that begins with a backslash
         self.fs[self.p('d2/\\x.conf')] = ('file', 24)
         self.fs[self.p('h/me/f.conf')] = ('file', 31)
